@@ -20,10 +20,12 @@ def sh(cmd):
 
 
 def main():
-    pid, which = sys.argv[1], sys.argv[2]
+    wname, which = sys.argv[1], sys.argv[2]
     extras = sys.argv[3:]
-    wt = "/tmp/mut/%s" % pid
-    out = "/tmp/mut/out_%s" % pid
+    wt = "/tmp/mut/%s" % wname
+    out = "/tmp/mut/out_%s" % wname
+    pid = wname[:3]  # "C03b" = second round for C03
+    keep_as = which if wname == pid else {"A": "C", "B": "D"}[which]
     patch = "%s/patch%s.diff" % (out, which)
     demo = "%s/demo%s.py" % (out, which)
     notes = "%s/notes%s.txt" % (out, which)
@@ -53,19 +55,19 @@ def main():
             res = json.loads(l[7:])
         elif not l.startswith("WARNING"):
             print("   " + l[:300])
-    dst = os.path.join(ROOT, "seeded", "%s_%s" % (pid, which))
+    dst = os.path.join(ROOT, "seeded", "%s_%s" % (pid, keep_as))
     os.makedirs(dst, exist_ok=True)
     shutil.copy(patch, dst + "/patch.diff")
     shutil.copy(demo, dst + "/demo.py")
     if os.path.exists(notes):
         shutil.copy(notes, dst + "/notes.txt")
     meta = {
-        "id": "%s_%s" % (pid, which),
+        "id": "%s_%s" % (pid, keep_as),
         "breaks": pid,
         "origin": "fresh sub-agent given only the property text and a scratch worktree",
         "needs": open(notes).read()[:1500] if os.path.exists(notes) else "",
         "confirmed": {"repository_tests_with_change": tests_line, "demo_exit_clean": r0.returncode, "demo_exit_with_change": r1.returncode,
-                      "how": "git apply in scratch worktree /tmp/mut/%s; PYTHONPATH=<wt>/src pytest tests (e2e deselected); demo run with and without the change" % pid},
+                      "how": "git apply in scratch worktree /tmp/mut/%s; PYTHONPATH=<wt>/src pytest tests (e2e deselected); demo run with and without the change" % wname},
         "checks_run": res,
         "detected_by": sorted(k for k, v in res.items() if v.get("exit") == 1),
     }
